@@ -71,6 +71,11 @@ func (w *World) CheckBalances(n *Node, addrs []string) {
 	if len(before.Leaves) == 0 {
 		return
 	}
+	// answers are judged against the snapshot taken before them; the node's retry ticker may admit a parked vertex in
+	// between (a new tip, another walk), so the verdicts are held back until the ledger is known not to have moved
+	type pend struct{ sig, detail string }
+	var pending []pend
+	viol := func(sig, detail string) { pending = append(pending, pend{sig, detail}) }
 	for _, a := range addrs {
 		sums := RefTipSums(before, a)
 		valid := map[string]bool{}
@@ -95,18 +100,18 @@ func (w *World) CheckBalances(n *Node, addrs []string) {
 			if err != nil {
 				sawErr = true
 				if !anyInvalid {
-					w.Violate("C06", "error-for-valid-balance", fmt.Sprintf("node %s: balance query for %s returned error %q although every tip's reference sum is a representable non-negative number (%s)", n.Name, w.NameOf(a), firstLine(err.Error()), describeSums(sums)))
+					viol("error-for-valid-balance", fmt.Sprintf("node %s: balance query for %s returned error %q although every tip's reference sum is a representable non-negative number (%s)", n.Name, w.NameOf(a), firstLine(err.Error()), describeSums(sums)))
 				}
 			} else {
 				if b.WalletPublicAddress != a {
-					w.Violate("C06", "wrong-address-in-answer", fmt.Sprintf("node %s: balance answer for %s names address %s", n.Name, w.NameOf(a), b.WalletPublicAddress))
+					viol("wrong-address-in-answer", fmt.Sprintf("node %s: balance answer for %s names address %s", n.Name, w.NameOf(a), b.WalletPublicAddress))
 				}
 				got := Val(b.Spice)
 				if b.Spice.SupplementaryCurrency >= E18 {
-					w.Violate("C06", "non-canonical-balance", fmt.Sprintf("node %s: balance for %s is %s", n.Name, w.NameOf(a), MelStr(b.Spice)))
+					viol("non-canonical-balance", fmt.Sprintf("node %s: balance for %s is %s", n.Name, w.NameOf(a), MelStr(b.Spice)))
 				}
 				if !valid[got.String()] {
-					w.Violate("C06", "balance-not-a-tip-sum", fmt.Sprintf("node %s: balance query for %s returned %s; reference sums per tip: %s", n.Name, w.NameOf(a), MelStr(b.Spice), describeSums(sums)))
+					viol("balance-not-a-tip-sum", fmt.Sprintf("node %s: balance query for %s returned %s; reference sums per tip: %s", n.Name, w.NameOf(a), MelStr(b.Spice), describeSums(sums)))
 				}
 				seen[got.String()] = true
 			}
@@ -142,7 +147,17 @@ func (w *World) CheckBalances(n *Node, addrs []string) {
 		}
 	}
 	after, err := TakeSnap(n.Book)
-	if err == nil && !n.BackgroundMayAct(before) && !n.BackgroundMayAct(after) {
+	if err != nil {
+		return
+	}
+	if (n.BackgroundMayAct(before) || n.BackgroundMayAct(after)) && before.Digest() != after.Digest() {
+		w.Res.Count("c06_ledger_moved_during_balance_queries", 1)
+		return
+	}
+	for _, p := range pending {
+		w.Violate("C06", p.sig, p.detail)
+	}
+	if !n.BackgroundMayAct(before) && !n.BackgroundMayAct(after) {
 		if before.Digest() != after.Digest() {
 			w.Violate("C06", "query-changed-ledger", fmt.Sprintf("node %s: the ledger state differs before and after balance queries (live %d -> %d, index %d -> %d): %s", n.Name, len(before.Live), len(after.Live), len(before.Index), len(after.Index), DigestDiff(before, after)))
 		}
@@ -336,9 +351,11 @@ func (w *World) CheckConservation(n *Node) {
 
 	// second observation: the implementation's own arithmetic. With a single tip every live vertex is counted by a balance
 	// query, so the reported balances must equal the reference per wallet and add up to the supply.
-	if len(s.Leaves) == 1 {
+	if len(s.Leaves) == 1 && !n.BackgroundMayAct(s) {
 		sum := new(big.Int)
 		okAll := true
+		type pend struct{ sig, detail string }
+		var pending []pend
 		for _, a := range w.AllAddresses() {
 			if a == w.GenIss {
 				continue
@@ -349,14 +366,23 @@ func (w *World) CheckConservation(n *Node) {
 			if err != nil {
 				okAll = false
 				if ref.Valid {
-					w.Violate("C02", "reported-balance-differs", fmt.Sprintf("node %s: balance of %s is an error (%s), the reference over all vertices is %s", n.Name, w.NameOf(a), firstLine(err.Error()), ref.Sum))
+					pending = append(pending, pend{"reported-balance-differs", fmt.Sprintf("node %s: balance of %s is an error (%s), the reference over all vertices is %s", n.Name, w.NameOf(a), firstLine(err.Error()), ref.Sum)})
 				}
 				continue
 			}
 			if !ref.Valid || Val(b.Spice).Cmp(ref.Sum) != 0 {
-				w.Violate("C02", "reported-balance-differs", fmt.Sprintf("node %s: reported balance of %s is %s, the reference over all vertices is %s", n.Name, w.NameOf(a), MelStr(b.Spice), ref.Sum))
+				pending = append(pending, pend{"reported-balance-differs", fmt.Sprintf("node %s: reported balance of %s is %s, the reference over all vertices is %s", n.Name, w.NameOf(a), MelStr(b.Spice), ref.Sum)})
 			}
 			sum.Add(sum, Val(b.Spice))
+		}
+		// the node's retry ticker may have admitted a parked vertex while the queries ran (a new tip, another walk): the
+		// answers are compared with the snapshot only if the ledger is still the one that was snapshotted
+		if s2, err := TakeSnap(n.Book); err != nil || s2.Digest() != s.Digest() {
+			w.Res.Count("c02_ledger_moved_during_balance_queries", 1)
+			return
+		}
+		for _, p := range pending {
+			w.Violate("C02", p.sig, p.detail)
 		}
 		if okAll {
 			// all vertices (the tip included) are counted: the reported balances add up to what the genesis wallet issued
